@@ -161,6 +161,7 @@ impl Timer {
         if let Some([sample_loop, tally_alloc, tally_dealloc, tally_realloc]) =
             crate::verif::clock::overheads()
         {
+            crate::verif::clock::charge_overhead_measurement();
             return Box::leak(Box::new(TimedOverhead {
                 sample_loop: FineDuration { picos: sample_loop },
                 tally_alloc: FineDuration { picos: tally_alloc },
